@@ -65,6 +65,13 @@ func (t *c15Tree) files() map[string]string {
 			var b strings.Builder
 			b.WriteString(f.Header)
 			fmt.Fprintf(&b, "package %s\n\n", f.Clause)
+			// the files of one package have their declarations at different line numbers (the first files longest)
+			if f.Ignored == "" && len(p.Files) > 1 {
+				for k := 0; k < 3*(len(p.Files)-fi); k++ {
+					fmt.Fprintf(&b, "// padding %d\n", k)
+				}
+				b.WriteString("\n")
+			}
 			if f.Ignored != "" {
 				// poison: must never run; would also break the package if it were included
 				fmt.Fprintf(&b, "import \"nonexistent/zz%d\"\n\nfunc poison%d() int {\n\tprintln(\"RUN\", %q, %q, \"var\")\n\treturn 1\n}\n\nvar P%d = poison%d()\n", fi, fi, p.Path, f.Name, fi, fi)
